@@ -59,9 +59,12 @@ type InstCfg struct {
 	// GateStopMetric: the metrics callback recording the leadership duration inside Stop's critical section (before
 	// the leader flag is cleared) blocks until a release_gate step: a scheduler gate that lets a timer fire while
 	// Stop holds the election's lock.
-	GateStopMetric bool  `json:"gate_stop_metric"`
-	HUs            int64 `json:"h_us"`
-	TTLUs          int64 `json:"ttl_us"`
+	GateStopMetric bool `json:"gate_stop_metric"`
+	// GateLog: the library goroutine that emits a log line with this message blocks there until a release_gate step
+	// (a scheduler gate at any logged step of the library; the first occurrence only)
+	GateLog string `json:"gate_log"`
+	HUs     int64  `json:"h_us"`
+	TTLUs   int64  `json:"ttl_us"`
 }
 
 // Match selects a pending operation (or watch delivery) of an instance.
